@@ -37,6 +37,11 @@ def run_times_case(prog, params):
         sr.syms['content'] = content
         if kind == 'file':
             r = sr.do('write %s $content' % target)
+        elif kind == 'root':
+            # the filesystem's own root: never created through the API (MemoryFS keeps it without any stamp)
+            r = sr.do('join f R -')
+            if r.startswith('ok'):
+                r = 'ok'
         else:
             r = sr.do('create_dir %s' % target)
         if r != 'ok':
